@@ -22,6 +22,7 @@ pub mod c17;
 pub mod c18;
 pub mod c19;
 pub mod c20;
+pub mod faultvar;
 pub mod sessmode;
 
 pub struct Report {
@@ -123,6 +124,8 @@ pub fn run(args: &Args) -> J {
         "c08" => c08::run(args, &mut rep),
         "c13" => c13::run(args, &mut rep),
         "c14" => c14::run(args, &mut rep),
+        "c14fault" => faultvar::run_c14(args, &mut rep),
+        "c12fault" => faultvar::run_c12(args, &mut rep),
         "c18" => c18::run(args, &mut rep),
         "c19" => c19::run(args, &mut rep),
         "c20" => c20::run(args, &mut rep),
